@@ -187,6 +187,9 @@ func (r *Report) Finish(verifDir string, prog *Program, start time.Time, seed in
 		switch o.Verdict {
 		case Discharged:
 			nDis++
+			if os.Getenv("ELACHECK_VERBOSE") == "2" {
+				fmt.Printf("OK property=%s rule=%s key=%s at %s: %s\n", r.Prop, o.Rule, o.Key, o.Pos, o.Detail)
+			}
 		case Info:
 			nInfo++
 			if os.Getenv("ELACHECK_VERBOSE") != "" {
